@@ -11,8 +11,8 @@ ANCHORS = ['edxml/ontology/ontology.py', 'edxml/ontology/event_type.py', 'edxml/
 IMPORTS = 'From EdxmlVerif Require Import Base.Prelude Onto.Tree Onto.Kinds Onto.Update.'
 
 # edits that are NOT valid upgrades even with a version bump (from the EDXML upgrade rules, independent of the model)
-INVALID = {'g.regex-hard=zx|y', 'g.regex-hard=other', 'o.regex-hard', 'o.regex-hard=x|y', 'o.regex-hard=zx|y', 'o.regex-hard=x|y|z', 'o.data-type', 'e.enum-prefix', 'e.enum-b', 'e.enum-other',
-           'ta.+version-property', 'ta.+sequence', 'ta.+mandatory-property', 'ta.+optional-datetime-property', 'ta.-property', 'ta.-relation',
+INVALID = {'g.regex-hard=zx|y', 'g.regex-hard=other', 'o.regex-hard', 'o.regex-hard=empty', 'o.regex-hard=x|y', 'o.regex-hard=zx|y', 'o.regex-hard=x|y|z', 'o.data-type', 'e.enum-prefix', 'e.enum-b', 'e.enum-other',
+           'ta.+version-property', 'ta.+sequence', 'ta.+mandatory-property', 'ta.+optional+mandatory-property', 'ta.+mandatory+optional-property', 'ta.-property+optional-property', 'ta.+optional-datetime-property', 'ta.-property', 'ta.-relation',
            'ta.-attachment', 'ta.-parent', 'ta.p.merge', 'ta.p.object-type', 'ta.q.single', 'ta.q.mandatory', 'ta.q.-concept',
            'ta.q.c.extension', 'ta.inter.target-concept=c.x', 'ta.doc.media-type=text/html', 'ta.doc.media-type=Text/Plain',
            'ta.doc.encoding=base64', 'ta.parent.property-map'}
@@ -271,7 +271,7 @@ def main(argv):
     ck.prove()
     rng = ck.rng
     E = OL.edit_catalogue()
-    n = ck.budget(160, 8000)
+    n = ck.budget(240, 8000)
     terms, metas, seen = [], [], set()
     defs = {}
 
@@ -297,6 +297,20 @@ def main(argv):
         except (IndexError, KeyError, StopIteration):
             continue
         directed.append(('invalid' if e[1] in INVALID else 'one-sided', [OL.base_ontology(), b1], e[1] in INVALID))
+    # a relation of every type added in version 2, followed by another upgrade of the same event type in version 3
+    for rtype in ('name', 'description', 'container', 'original', 'inter', 'intra', 'other'):
+        for src, tgt in (('q', 'p'), ('r', 'q')):
+            b1 = OL.base_ontology()
+            kw = {'source-concept': 'c', 'target-concept': 'c.x'} if rtype in ('inter', 'intra') and (src, tgt) == ('q', 'p') else {}
+            if rtype in ('inter', 'intra') and not kw:
+                continue
+            OL._et(b1)['relations'].append(OL.REL(rtype, src, tgt, **kw))
+            OL._et(b1)['version'] = 2
+            b2 = copy.deepcopy(b1)
+            OL._et(b2)['description'] = 'third version'
+            OL._et(b2)['version'] = 3
+            directed.append(('chain', [OL.base_ontology(), b1, b2], False))
+            directed.append(('chain', [b1, OL.base_ontology(), b2], False))
     Eby = {e[1]: e for e in E}
     directed.append(('one-sided', [OL.base_ontology(), OL.apply_edits(OL.base_ontology(), [Eby['ta.p.description']], 2)], False))
     for it in range(n):
@@ -323,6 +337,14 @@ def main(argv):
                 fails += independence_probe(kind, seq, path)
             for sig, detail in fails:
                 ck.oracle_failures.append({'signature': sig, 'input': inp, 'observed': detail})
+            # an incompatible pair is refused whichever of the two is updated with the other
+            if len(seq) == 2 and expect_error and not fails:
+                st_r, _, _, _ = run_scenario(kind, [seq[1], seq[0]], path)
+                ck.cov['evaluations'] += 1
+                if all(x == 'ok' for x in st_r):
+                    ck.oracle_failures.append({'signature': 'incompatible-accepted/%s-reversed/%s' % (kind, path),
+                                               'input': {'scenario': kind, 'sequence': [seq[1], seq[0]], 'path': path, 'expect_error': True},
+                                               'observed': 'updating the newer / other ontology with this one succeeded although the definitions are incompatible'})
             # commutativity (two ontologies): update(B, A) must give the same definitions
             if len(seq) == 2 and all(s == 'ok' for s in statuses) and not fails:
                 st2, A2, _, _ = run_scenario(kind, [seq[1], seq[0]], path)
